@@ -21,14 +21,14 @@ func init() {
 	core.Register(&core.Check{
 		ID:    "C06",
 		Level: "exploration",
-		Rule: "E-proc + child exit status: Close is injected at PRNG-chosen points of a running history (idle, mid-burst with a mutator goroutine writing into watched directories, reader parked in a blocked send, a watched path deleted and still unprocessed, concurrently with Add/Remove/WatchList and with 1-8 other Close calls) " +
+		Rule: "E-proc + child exit status: Close is injected at PRNG-chosen points of a running history (idle, mid-burst with a mutator goroutine writing into watched directories, reader parked in a blocked send, a watched path deleted and still unprocessed, a real queue overflow whose error nobody receives (Events drained first), concurrently with Add/Remove/WatchList and with 1-8 other Close calls) " +
 			"x consumer {both, only Events, only Errors, neither until close, stops midway} x buffer {default,0,1,16,4096} x GOMAXPROCS {1,2,4,16}, PRNG delays at the verif yield points. Oracles: the child must not die with 'send on closed channel'/'close of closed channel' (any panic is a violation); " +
 			"every Close returns nil; once all Close calls have returned both channels must report closed (bounded progress; if not, the goroutine dump decides: no reader goroutine left => violated) after at most cap(Events) further values; afterwards Add => ErrClosed, Remove => nil, WatchList => nil, Close => nil, from several goroutines. " +
 			"distinct_nontrivial = distinct (close point, consumer, buffer, closers, procs) cases in which events were flowing (>=1 send probed) before Close",
 		Assumptions: []string{"a Close call that loses the race returns before the reader has finished, so 'after Close' is taken as 'after every concurrent Close call returned'", "'promptly' is restated as bounded progress with the dump as the deciding witness"},
 		Batches:     func(t string) int { return map[string]int{"quick": 16, "thorough": 64}[t] },
 		RaceBatches: func(t string) int { return map[string]int{"quick": 2, "thorough": 16}[t] },
-		MustObserve: []string{"close_points", "channels_seen_closed", "post_close_api_calls", "close_with_events_in_flight"},
+		MustObserve: []string{"close_points", "channels_seen_closed", "post_close_api_calls", "close_with_events_in_flight", "overflow_error_pending_at_close"},
 		Run:         runC06,
 	})
 }
@@ -68,6 +68,10 @@ func c06Case(c *core.Ctx, rng *rand.Rand, dir string, idx int, a *apiTrack, st *
 	cons := c05consumers[rng.Intn(len(c05consumers))]
 	buf := []int{-1, 0, 1, 16, 4096}[rng.Intn(5)]
 	closers := 1 + rng.Intn(8)
+	if idx == 3 && c.Batch%4 == 0 && !c.Race {
+		// one REAL queue overflow per fourth batch: Events drained, the overflow error left pending, then Close
+		point, cons = "overflow-error-pending", "only-events"
+	}
 	procs := runtime.GOMAXPROCS(0)
 	params := fmt.Sprintf("point=%s consumer=%s buffer=%d closers=%d procs=%d", point, cons, buf, closers, procs)
 	var w *fsnotify.Watcher
@@ -99,6 +103,8 @@ func c06Case(c *core.Ctx, rng *rand.Rand, dir string, idx int, a *apiTrack, st *
 	var afterClose int64
 	evClosed, erClosed := make(chan struct{}), make(chan struct{})
 	kStop := int64(1 + rng.Intn(30))
+	var hold int32  // 1: the consumer takes nothing (overflow burst in progress)
+	var gotA int64  // events taken so far
 	// consumer: always notices closure (a receive-only view would never know); the
 	// mode only decides whether it takes values before the Close calls return.
 	go func() {
@@ -115,6 +121,9 @@ func c06Case(c *core.Ctx, rng *rand.Rand, dir string, idx int, a *apiTrack, st *
 					er = nil
 				}
 			}
+			if atomic.LoadInt32(&hold) == 1 {
+				ev, er = nil, nil
+			}
 			if ev == nil && er == nil {
 				time.Sleep(100 * time.Microsecond)
 				continue
@@ -130,6 +139,7 @@ func c06Case(c *core.Ctx, rng *rand.Rand, dir string, idx int, a *apiTrack, st *
 					continue
 				}
 				got++
+				atomic.AddInt64(&gotA, 1)
 				if pre == 1 {
 					atomic.AddInt64(&afterClose, 1)
 				}
@@ -156,7 +166,26 @@ func c06Case(c *core.Ctx, rng *rand.Rand, dir string, idx int, a *apiTrack, st *
 			os.RemoveAll(dirs[2])
 		}
 	}
-	if point != "idle" && point != "deleted-watch-pending" {
+	if point == "overflow-error-pending" {
+		atomic.StoreInt32(&hold, 1)
+		mq := maxQueued()
+		g0 := atomic.LoadInt64(&gotA)
+		for k := 0; k < mq+300; k++ {
+			os.WriteFile(filepath.Join(dirs[0], fmt.Sprint("o", k)), nil, 0o644)
+		}
+		atomic.StoreInt32(&hold, 0)
+		// logical condition: everything queued was consumed and the reader has begun one more send (the
+		// overflow error: nothing else is queued). The cap only bounds a broken run.
+		for p := 0; p < 150000; p++ {
+			ne := atomic.LoadInt64(&gotA) - g0
+			if ne >= int64(mq) && atomic.LoadInt64(&st.sends)-sends0 > ne {
+				c.Count("overflow_error_pending_at_close", 1)
+				break
+			}
+			time.Sleep(100 * time.Microsecond)
+		}
+	}
+	if point != "idle" && point != "deleted-watch-pending" && point != "overflow-error-pending" {
 		mutDone.Add(1)
 		seed := rng.Int63()
 		go func() {
@@ -251,8 +280,8 @@ func c06Case(c *core.Ctx, rng *rand.Rand, dir string, idx int, a *apiTrack, st *
 	if notRet > 0 {
 		var dump string
 		dumps.Range(func(_, v interface{}) bool { dump = v.(string); return false })
-		cls := hangClass(dump)
-		if cls == "deadlock:send-under-lock+api-blocked" || cls == "send-under-lock" || cls == "no-reader-goroutine" || cls == "lock-leaked" {
+		cls, dump := persistentHangClass(dump)
+		if cls == "deadlock:send-under-lock+api-blocked" || cls == "send-under-lock" || cls == "no-reader-goroutine" || cls == "lock-leaked" || cls == "api-waits-for-reader-parked-in-send" || cls == "lock-holder-busy" {
 			c.Violate("close-did-not-return", fmt.Sprintf("[%s] %d Close calls did not return (%s)", params, notRet, cls), dumpExcerpt(dump))
 		} else {
 			c.Inconclusive(fmt.Sprintf("[%s] Close not returned at the watchdog, dump class %s", params, cls))
